@@ -19,18 +19,18 @@ ovars == <<ost, jlen, written, finished, nextJob>>
 
 OInit == /\ ost = EmptyLanes /\ jlen = [j \in 1 .. MaxJobs |-> 0] /\ written = {} /\ finished = {} /\ nextJob = 1
 
-Apply(r) == /\ ost' = r.st
-            /\ written' = written \cup r.writes
-            /\ finished' = IF r.ret = NOJOB THEN finished ELSE finished \cup {r.ret}
+Apply(r, w) == /\ ost' = r.st
+               /\ written' = written \cup w
+               /\ finished' = IF r.ret = NOJOB THEN finished ELSE finished \cup {r.ret}
 
 SubmitStep ==
     /\ nextJob <= MaxJobs /\ ost.stack # <<>>
     /\ \E len \in Lens :
           /\ jlen' = [jlen EXCEPT ![nextJob] = len]
-          /\ Apply(OSubmit(ost, nextJob, len))
+          /\ Apply(OSubmit(ost, nextJob, len), OSubmitWrites(ost, nextJob, len))
     /\ nextJob' = nextJob + 1
 
-FlushStep == /\ Apply(OFlush(ost)) /\ UNCHANGED <<jlen, nextJob>>
+FlushStep == /\ Apply(OFlush(ost), OFlushWrites(ost)) /\ UNCHANGED <<jlen, nextJob>>
 
 ONext == SubmitStep \/ FlushStep
 OSpec == OInit /\ [][ONext]_ovars
